@@ -345,6 +345,11 @@ func (c *converter) syncTCPRouteGateway(tcpRouteSource *tcpRouteSource, gatewayS
 		if sectionName != nil && *sectionName != listener.Name {
 			continue
 		}
+		if listener.Protocol != "" && listener.Protocol != gatewayv1.TCPProtocolType && listener.Protocol != gatewayv1.TLSProtocolType {
+			c.logger.Warn("skipping attachment of %s to %s listener '%s': listener protocol '%s' does not support TCPRoute",
+				tcpRouteSource, gatewaySource, listener.Name, listener.Protocol)
+			continue
+		}
 		if err := c.checkListenerAllowed(gatewaySource, &tcpRouteSource.source, &listener); err != nil {
 			c.logger.Warn("skipping attachment of %s to %s listener '%s': %s",
 				tcpRouteSource, gatewaySource, listener.Name, err)
